@@ -266,3 +266,54 @@ func VerifC11Injection() {
 	rt.Assert(c11Equal(gh, want), "C11.only-missing-request-headers-are-added")
 	rt.Assert(res["x"] == "y" && len(res) == 2 && len(got) == 2, "C11.rest-of-the-message-unchanged")
 }
+
+// VerifC11Burst (HW-11d): more messages than the 10-slot internal buffers, in
+// both directions, with concrete payloads: nothing lost, duplicated or reordered.
+func VerifC11Burst() {
+	env := newShimEnv(false)
+	sid, w := env.open("1")
+	rt.Assert(w.Code == 200 && sid != "", "C11.open-answered-200")
+	if sid == "" {
+		return
+	}
+	n := rt.Param("burst", 12)
+	// backend -> client: all messages are queued before the first poll (symbolic: the
+	// connection's goroutines may or may not have drained the socket by then)
+	for i := 0; i < n; i++ {
+		rt.Assert(env.backend.WriteMessage(websocket.TextMessage, []byte("s"+rt.Itoa(i))) == nil, "C11.backend-write-ok")
+	}
+	if rt.Bool("settle") {
+		rt.Quiesce()
+	}
+	got := 0
+	for p := 0; p < n+2 && got < n; p++ {
+		w := env.call("poll", sidBody(sid), nil)
+		rt.Assert(w.Code == 200 || w.Code == 408, "C11.poll-answered")
+		if w.Code != 200 {
+			continue
+		}
+		var msgs []interface{}
+		rt.Assert(json.Unmarshal(w.Body, &msgs) == nil, "C11.poll-reply-is-a-json-list")
+		for _, raw := range msgs {
+			s, ok := raw.(string)
+			rt.Assert(ok && s == "s"+rt.Itoa(got), "C11.burst-server-messages-in-order-none-lost")
+			got++
+		}
+	}
+	rt.Assert(got == n, "C11.burst-every-server-message-delivered")
+	// client -> backend: one data post carrying the whole burst
+	var batch []interface{}
+	for i := 0; i < n; i++ {
+		batch = append(batch, "c"+rt.Itoa(i))
+	}
+	wd := env.call("data", dataBody(sid, batch...), nil)
+	rt.Assert(wd.Code == 200, "C11.data-post-accepted")
+	for i := 0; i < n; i++ {
+		typ, payload, err := env.backend.ReadMessage()
+		rt.Assert(err == nil && typ == websocket.TextMessage && string(payload) == "c"+rt.Itoa(i), "C11.burst-client-messages-in-order-none-lost")
+		if err != nil {
+			return
+		}
+	}
+	rt.Cover("C11.burst-checked")
+}
